@@ -308,8 +308,8 @@ func rtRun(prog string) (string, error) {
 		runtime.GC()
 		runtime.GC()
 		// (objects of the size classes, with pointers, that descriptors of fields and types fall into: 48..96 bytes)
-		spray := make([]interface{}, 0, 400000)
-		for i := 0; i < 100000; i++ {
+		spray := make([]interface{}, 0, 100000)
+		for i := 0; i < 25000; i++ {
 			spray = append(spray, &[10]*byte{}, &[9]*byte{}, &[8]*byte{}, &[12]*byte{})
 		}
 		b2, err := sonic.ConfigStd.Marshal(&v)
